@@ -157,9 +157,13 @@ func respondersOf(f *ssa.Function, cv ssa.Value) []responder {
 		if obj == nil || obj.Pkg() == nil || obj.Pkg().Path() != ginPath {
 			return
 		}
-		args := call.Call.Args
-		if len(args) < 2 || args[0] != cv {
+		args := append([]ssa.Value{}, call.Call.Args...)
+		if len(args) < 2 || resolveMem(args[0]) != cv {
 			return
+		}
+		// the context, the status and the body may be kept in a local reply object
+		for i := range args {
+			args[i] = resolveMem(args[i])
 		}
 		switch obj.Name() {
 		case "JSON", "IndentedJSON", "PureJSON", "XML", "YAML", "AbortWithStatusJSON", "SecureJSON", "AsciiJSON", "ProtoBuf":
@@ -196,6 +200,8 @@ func checkC12(c *Ctx, r *Report) {
 	r.rule("C12.R4", "recharge: one notification to ue.NotifyUri naming the rating group on the found edge, none otherwise; RechargePut answers 204", 4)
 	r.rule("C12.R5", "every ProblemDetails status built in the processor is a 4xx constant", 8)
 	r.rule("C12.R8", "the subscriber a request is processed for is the one the request names: no code of the module assigns the request's subscriberIdentifier (a look-up that falls back to another subscriber answers 200/204 for a request naming an unknown one)", 1)
+	r.rule("C12.R9", "the rating group named in the recharge path is parsed in the width of the rating-group type (a narrower parse answers 400 for a legal rating group)", 1)
+	r.rule("C12.R10", "a rejected request leaves the subscriber usable: every lock taken by a request is released on all its exits, the 4xx ones included (shared with C11.R4) - otherwise the valid requests that follow are never answered", 4)
 	r.rule("C12.R7", "the notification URI registered at creation is not overwritten by update, release or recharge", 1)
 	r.rule("C12.R6", "after credit control has run, a 4xx answer reports a failed operation and is never a check of the request content", 6)
 
@@ -322,8 +328,8 @@ func checkC12(c *Ctx, r *Report) {
 			okLoc := false
 			why := "no c.Header(\"Location\", uri) with the URI returned by the processor dominates the 201 answer"
 			eachInstr(f, func(_ *ssa.BasicBlock, _ int, ins ssa.Instruction) {
-				if cc, ok := callIs(ins, ginPath, "Context.Header"); ok && len(cc.Args) == 3 && cc.Args[0] == ssa.Value(cv) {
-					if s, ok := constString(cc.Args[1]); ok && s == "Location" && cc.Args[2] == results[1] {
+				if cc, ok := callIs(ins, ginPath, "Context.Header"); ok && len(cc.Args) == 3 && resolveMem(cc.Args[0]) == ssa.Value(cv) {
+					if s, ok := constString(cc.Args[1]); ok && s == "Location" && resolveMem(cc.Args[2]) == results[1] {
 						for _, g := range good {
 							if instrDominates(ins, g) {
 								okLoc = true
@@ -417,6 +423,8 @@ func checkC12(c *Ctx, r *Report) {
 	// ---- R4 recharge
 	checkRecharge(c, r)
 	checkRequestIdentity(c, r)
+	r.shareFrom(c, checkC11, map[string]string{"C11.R4": "C12.R10"})
+	checkParseWidths(c, r, "C12.R9", c.fn("internal/sbi", "Server.RechargePut"))
 	checkNotifyUriWriters(c, r, "C12.R7")
 
 	// ---- R5 status constants
@@ -897,4 +905,26 @@ func checkRequestIdentity(c *Ctx, r *Report) {
 	if n == 0 {
 		r.proven("C12.R8", "request identity|no writer", "", "no function of the module assigns ChargingDataRequest.SubscriberIdentifier: the processor looks up the subscriber the request names")
 	}
+}
+
+// resolveMem: a value read back from a member of a local, non-escaping struct (a reply /
+// state object made in the function, copies of it included) or from a plain local is the
+// value that was stored there, when a single definition reaches the read.
+func resolveMem(v ssa.Value) ssa.Value {
+	for i := 0; i < 8; i++ {
+		ld, ok := v.(*ssa.UnOp)
+		if !ok || ld.Op != token.MUL {
+			return v
+		}
+		if sv, ok := forwardLoad(ld); ok && sv != v {
+			v = sv
+			continue
+		}
+		if sv := resolveLocalLoad(v); sv != v {
+			v = sv
+			continue
+		}
+		return v
+	}
+	return v
 }
